@@ -574,8 +574,17 @@ class Fxp():
             # max raw value (integer) estimation
             # n_int = max( np.ceil(np.log2(np.max(np.abs( val*(1 << n_frac) + 0.5 )))).astype(int_dtype) - n_frac, 0)
             
-            val_max = int(np.max(val)*(1 << n_frac))
-            val_min = int(np.min(val)*(1 << n_frac))
+            _v_max, _v_min = np.max(val), np.min(val)
+            if val.dtype.kind in 'iu':
+                _v_max, _v_min = int(_v_max), int(_v_min)     # python integers: the scaled extremes may need more than 64 bits
+            if n_frac >= 0:
+                val_max = int(_v_max*(1 << n_frac))
+                val_min = int(_v_min*(1 << n_frac))
+            else:
+                # a negative fraction length drops integer bits (toward zero, like the multiplication above)
+                _drop = (lambda v: (v >> -n_frac) if v >= 0 else -((-v) >> -n_frac)) if val.dtype.kind in 'iu' else (lambda v: int(v / (1 << -n_frac)))
+                val_max = _drop(_v_max)
+                val_min = _drop(_v_min)
             n_int = 0
             while True:     # all the integer bits are counted, so that n_frac gives way when the word is capped
                 msb_max = (val_max >> n_int) + (1 if val_max < 0 else 0)
